@@ -20,7 +20,8 @@ def parseAct (s : String) : Option (List Act) :=
   else if s == "c" then some [.close]
   else if s.startsWith "p" then ((s.drop 1).toString.toNat?).map fun f => [.poll f]
   else if s.startsWith "x" then ((s.drop 1).toString.toNat?).map fun f => [.drop f]
-  else if s.startsWith "d" then
+  -- `D…` is `d…` with the reply padded to more than 1 MiB: the size of a message is not part of the model
+  else if s.startsWith "d" || s.startsWith "D" then
     match (s.drop 1).toString.splitOn "/" with
     | [i, t, p] => do
       let id ← if i == "n" then some none else i.toNat?.map some
@@ -62,7 +63,7 @@ answered with exactly one well-formed reply bearing its id, and nothing else was
 future that was not dropped must have resolved `ok<tag>`. -/
 def specSched (acts : List String) (obs : String) : String :=
   let delivs : List (Option Nat × Nat × Bool) := acts.filterMap fun a =>
-    if a.startsWith "d" then
+    if a.startsWith "d" || a.startsWith "D" then
       match (a.drop 1).toString.splitOn "/" with
       | [i, t, p] => some (if i == "n" then none else i.toNat?, t.toNat?.getD 0, p == "1")
       | _ => none
